@@ -26,7 +26,7 @@ func init() {
 			"fixed bound on the running difference: |b| <= (j*M + 0.5)/(1-j), M the largest rate so far (fixed point of the carry recurrence)",
 		},
 		Gen: func(tier string, seed uint64) []core.Case {
-			n, per, ml := 32, 40, 20000
+			n, per, ml := 96, 60, 20000
 			if tier == "thorough" {
 				n, per, ml = 256, 60, 100000
 			}
